@@ -5,13 +5,13 @@ PROP = "C20"
 
 
 def hdb():
-    return build.harness("hdbmodel", "asan", ["hdbmodel.c", "vp.c"], wraps=["random", "srand"])
+    return build.harness("hdbmodel", "asan", ["hdbmodel.c", "vp.c"], wraps=["random", "srand", "malloc", "calloc"])
 
 
 STAGE_LIST = [simple.Stage("model", hdb, quick=4000, thorough=400000)]
 STAGES = {s.name: s.builder for s in STAGE_LIST}
 RULE = ("one case = one handle database driven by 60-300 random create/get/put/destroy/refcount/iterate ops with "
-        "handle values drawn from live, released (slot possibly reused), pending-removal, forged (wrong check, huge "
+        "creates whose object allocation fails (failpoint on malloc/calloc: -ENOMEM, no effect), handle values drawn from live, released (slot possibly reused), pending-removal, forged (wrong check, huge "
         "slot, negative slot) and no-check handles, compared op by op with a refcount model and a destructor ledger; "
         "non-trivial = used a stale handle, saw slot reuse or a destroyed-but-referenced object; distinct by hash of "
         "the op trace prefix and these three flags")
